@@ -822,6 +822,24 @@ def _bound_by_other_loop(fn, x, st):
     return False
 
 
+def _is_guard_break(b):
+    return isinstance(b, ast.If) and not b.orelse and len(b.body) == 1 and isinstance(b.body[0], ast.Break)
+
+
+def _nest_after_breaks(body, tail):
+    """the statements of one iteration followed by the later iterations (`tail`), with every `if c: break` guard clause turned into
+    `if not c: <everything that would have followed>`"""
+    from .facts import negate
+    for i, b in enumerate(body):
+        if _is_guard_break(b):
+            inner = _nest_after_breaks(body[i + 1:], tail)
+            new_if = ast.If(test=negate(copy.deepcopy(b.test)), body=inner or [ast.Pass()], orelse=[])
+            ast.copy_location(new_if, b)
+            ast.fix_missing_locations(new_if)
+            return body[:i] + [new_if]
+    return body + tail
+
+
 def _unrollable(st, fn=None):
     if st.orelse:
         return False
@@ -841,8 +859,10 @@ def _unrollable(st, fn=None):
             if isinstance(x, (ast.Global, ast.Nonlocal)) and tn_ & set(x.names):
                 return False
     st.body = _dissolve_continue(st.body) if any(isinstance(n, ast.Continue) for n in ast.walk(st)) and _literal_iter(st) is not None else st.body
+    # `if c: break` guard clauses at the top level of the body are written out by nesting the later iterations under `not c`
+    guard_breaks = {id(b.body[0]) for b in st.body if _is_guard_break(b)}
     for n in ast.walk(st):
-        if isinstance(n, (ast.Break, ast.Continue)):
+        if isinstance(n, (ast.Break, ast.Continue)) and id(n) not in guard_breaks:
             return False
     tnames = {n.id for n in ast.walk(st.target) if isinstance(n, ast.Name)}
     if tnames & _stores(st.body):
@@ -895,13 +915,20 @@ def unroll_new_literal_loops(tree, ref_loops):
                             sfx = ""
                             while any(f"{nm_}{sfx}_{k_}" in taken_ for nm_ in local for k_ in range(len(subs))):
                                 sfx += "_"          # the invented names must be new in the function
+                            iterations = []
                             for k_it, m in enumerate(subs):
                                 ren = {nm_: f"{nm_}{sfx}_{k_it}" for nm_ in local} if len(subs) > 1 else {}
+                                one = []
                                 for b in st.body:
                                     nb = _subst(b, m)
                                     if ren:
                                         nb = _rename(nb, ren)
-                                    out.append(ast.copy_location(nb, b))
+                                    one.append(ast.copy_location(nb, b))
+                                iterations.append(one)
+                            tail = []
+                            for one in reversed(iterations):
+                                tail = _nest_after_breaks(one, tail)
+                            out.extend(tail)
                             n += 1
                             continue
                 out.append(st)
